@@ -771,6 +771,11 @@ def do_wmsc(R, st, tileset):
             if rng.random() < 0.3:
                 e = r / rng.choice([8, 16, 4, 2])
                 variants.append(('shifted', tuple(v + e for v in rect), tw, th))
+            if rng.random() < 0.3:
+                # one axis only (bbox_equals uses one tolerance for the min corner and one for the max corner), up to 2 px
+                e = r * rng.choice([Fraction(1, 8), Fraction(1, 16), Fraction(1, 4), Fraction(1, 2), 1, 2, Fraction(-1, 8), Fraction(-1, 4)])
+                k = rng.choice([(1, 0, 1, 0), (0, 1, 0, 1), (1, 0, 0, 0), (0, 0, 0, 1), (0, 0, 1, 0), (0, 1, 0, 0)])
+                variants.append(('shift-axis', tuple(v + e * kk for v, kk in zip(rect, k)), tw, th))
             if rng.random() < 0.1:
                 variants.append(('wrongsize', rect, tw + 1, th))
             if rng.random() < 0.1:
@@ -904,8 +909,8 @@ def corpus_layers():
 def run(ctx):
     R = Run(ctx)
     rng = ctx.rng
-    R.full_limit = ctx.n(9, 64)
-    R.k = ctx.n(3, 24)
+    R.full_limit = ctx.n(9, 36)
+    R.k = ctx.n(3, 12)
     R.obs = Observer()
     import logging
     logging.disable(logging.CRITICAL)
@@ -922,7 +927,7 @@ def run(ctx):
             by_origin.setdefault(o, []).append(spec)
         for o, specs in sorted(by_origin.items(), key=lambda kv: str(kv[0])):
             batches.append((specs, o))
-        n_exact = ctx.n(12, 120)
+        n_exact = ctx.n(12, 60)
         exact = [gen_exact_layer(rng, i) for i in range(n_exact)]
         per = 6
         for k in range(0, len(exact), per):
